@@ -1186,7 +1186,7 @@ func (a *Analysis) partKey(st *State) string {
 	var parts []string
 	for v, e := range st.env {
 		phi, ok := v.(*ssa.Phi)
-		if !ok || !isFlagPhi(phi, nil) {
+		if !ok || (!isFlagPhi(phi, nil) && !a.dynCountedLoop(st, phi)) {
 			continue
 		}
 		if c, ok := e.IsConst(); ok {
@@ -1312,7 +1312,7 @@ func (a *Analysis) flow(st *State, from, to *ssa.BasicBlock) *State {
 			continue
 		}
 		if isBoolType(t) || intTypeInfo(t).ok {
-			if c, ok := b.r.IsConst(); ok && isFlagPhi(b.phi, nil) {
+			if c, ok := b.r.IsConst(); ok && (isFlagPhi(b.phi, nil) || a.dynCountedLoop(n, b.phi)) {
 				n.env[b.phi] = mkConst(c, t)
 				if isBoolType(t) {
 					n.env[b.phi] = mkBool(c != 0)
@@ -1445,6 +1445,52 @@ func smallCountedLoop(phi *ssa.Phi) bool {
 		return false
 	}
 	return n.Int64()-init.Int64() <= countedLoopMax+1 && n.Int64() >= init.Int64()
+}
+
+// dynCountedLoop: a loop of the same shape whose bound is not a constant of
+// the program but is one in this state (`for _, i := range order` in a helper
+// inlined at a call that passes a two-element argument list).
+func (a *Analysis) dynCountedLoop(st *State, phi *ssa.Phi) bool {
+	if len(phi.Edges) != 2 || !intTypeInfo(phi.Type()).ok {
+		return false
+	}
+	b := phi.Block()
+	var init *ssa.Const
+	var step *ssa.BinOp
+	for i, e := range phi.Edges {
+		if b.Dominates(b.Preds[i]) {
+			bo, ok := e.(*ssa.BinOp)
+			if !ok || bo.Op != token.ADD || bo.X != ssa.Value(phi) {
+				return false
+			}
+			if one, isC := bo.Y.(*ssa.Const); !isC || one.Value == nil || one.Int64() != 1 {
+				return false
+			}
+			step = bo
+		} else if c, isC := e.(*ssa.Const); isC && c.Value != nil {
+			init = c
+		}
+	}
+	if init == nil || step == nil || len(b.Instrs) == 0 {
+		return false
+	}
+	iff, ok := b.Instrs[len(b.Instrs)-1].(*ssa.If)
+	if !ok {
+		return false
+	}
+	cmp, ok := iff.Cond.(*ssa.BinOp)
+	if !ok || cmp.Op != token.LSS || (cmp.X != ssa.Value(phi) && cmp.X != ssa.Value(step)) {
+		return false
+	}
+	if _, isC := cmp.Y.(*ssa.Const); isC {
+		return false // smallCountedLoop's case
+	}
+	be, bound := st.env[cmp.Y]
+	if !bound {
+		return false
+	}
+	n, isC := st.rangeOf(be).IsConst()
+	return isC && n-init.Int64() <= countedLoopMax+1 && n >= init.Int64()
 }
 
 // countedLoopMax is the trip count up to which a counted loop is unrolled by
